@@ -262,7 +262,57 @@ class StrModel:
         raise Unsupported(f"str.{name}", node)
 
 
+# ------------------------------------------------------------------------ bytes
+class BytesModel:
+    """immutable bytes of symbolic length: len + Array Int->Int with every element in 0..255"""
+    name = "A-CPY bytes indexing"
+    kind = "bytes"
+
+    def make(self, eng: Any, st: State, sort: Sort, name: str) -> tuple[State, Any, list]:
+        n = V.fresh_int(name + ".len")
+        st, r = eng.alloc(st, "bytes", "bytes", len=n, b=V.fresh_of_sort(name + ".b", z3.ArraySort(V.IntSort, V.IntSort)))
+        return st, r, [n >= 0]
+
+    def invariant(self, eng: Any, st: State, r: Ref) -> list:
+        return [st.obj(r).get("len") >= 0]
+
+    def length(self, eng: Any, st: State, r: Ref) -> Any:
+        return st.obj(r).get("len")
+
+    def getitem(self, eng: Any, st: State, r: Ref, i: Any, node: Any, ctx: Any):
+        o = st.obj(r)
+        ln = o.get("len")
+        if not V.is_int(i):
+            raise Unsupported("bytes index must be int", node)
+        for st1, ok in eng.branch(st, And(i >= -ln, i < ln), f"L{_line(node)}bytes-idx"):
+            if ok:
+                idx = z3.If(i < 0, i + ln, to_z3(i)) if is_z3(i) else (i if i >= 0 else i + ln)
+                v = z3.Select(o.get("b"), to_z3(idx))
+                yield st1.assume(v >= 0, v <= 255), v
+            else:
+                yield st1, Raised(ExcVal("IndexError"))
+
+    def call_method(self, eng: Any, st: State, r: Ref, name: str, args: list, kwargs: dict, node: Any, ctx: Any):
+        raise Unsupported(f"bytes.{name}", node)
+
+    def describe(self, ex: Any, v: Ref, heap: dict) -> Any:
+        o = heap[v.id]
+        n = ex.py(o.get("len"))
+        if n > 64:
+            raise Exception("bytes too long")
+        return {"t": "bytes", "v": [ex.py(z3.Select(o.get("b"), z3.IntVal(i))) % 256 for i in range(n)]}
+
+    desc_types = ("bytes",)
+
+    def build(self, eng: Any, st: State, d: Any) -> tuple[State, Any]:
+        b = z3.K(V.IntSort, z3.IntVal(0))
+        for i, x in enumerate(d["v"]):
+            b = z3.Store(b, z3.IntVal(i), z3.IntVal(x))
+        return eng.alloc(st, "bytes", "bytes", len=z3.IntVal(len(d["v"])), b=b)
+
+
 def install(reg: Any = REGISTRY) -> None:
+    reg.models["bytes"] = BytesModel()
     od = ODModel()
     reg.models["od"] = od
     reg.models["ext:collections.OrderedDict"] = od
